@@ -69,6 +69,21 @@ def _replay(blocks):
                     r = check_values(fn, got, st, k, {**case, 'scale': k})
                     if r:
                         viol.append(r)
+            # integer-typed components (python ints, an int64 column) where the tensor is integral: as the float tensor
+            if st['out']['n'] == 1:
+                ti = [int(x) for x in st['out']['tn']]
+                for fn in fns:
+                    try:
+                        gi = float(getattr(EQ, fn)(*ti))
+                        ga = float(np.asarray(getattr(EQ, fn)(*[np.array([x, x], dtype=np.int64) for x in ti]), dtype=np.float64)[1])
+                    except Exception as ex:
+                        viol.append(('%s raised %r for integer-typed components' % (fn, ex), case, None, None))
+                        continue
+                    for got_i in (gi, ga):
+                        r = check_values(fn, got_i, st, 1.0, {**case, 'component_type': 'integer'})
+                        if r:
+                            viol.append(r)
+                            break
             pr = np.sort(np.asarray(EQ.principals(*t), dtype=np.float64))
             if not close(pr, sorted(st['l']), 1e-11, 1e-11):
                 viol.append(('principals differ from the eigenvalues', case, sorted(st['l']), pr.tolist()))
